@@ -118,5 +118,18 @@ def run_case(case, drv):
         if again[q] != A[q]:
             res.fail(f"{form}:order-dependent:{q}", f"query {q} returns a different result after other queries on unchanged data")
             break
+    # any order from a fresh object: the index maps asked FIRST must answer like they do after the size was asked
+    fresh_ref, _ = FU.build_form(case, with_heur=False)
+    ref = {q: query(fresh_ref, form, q) for q in ["n", "tup", "idx", "obj", "con", "qubo_o", "qubo_f"]}
+    for first in (["idx", "tup"], ["tup", "idx"], ["con", "idx"], ["qubo_f", "tup"]):
+        fresh, _ = FU.build_form(case, with_heur=False)
+        for q in first + ["n", "obj", "qubo_o"]:
+            got = query(fresh, form, q)
+            if got != ref[q]:
+                res.fail(f"{form}:order-dependent-fresh:{q}", f"on a fresh object, query '{q}' issued in the order {first + ['n', 'obj', 'qubo_o']} returns "
+                                                              f"{core._short(got, 150)} but {core._short(ref[q], 150)} when the size is asked first")
+                break
+        if res.failures:
+            break
     res.nontrivial = query_before and changed
     return res
